@@ -199,3 +199,99 @@ theorem block_canon {α} (n : Nat) (d : Dec α) (e : α → Bytes) (bs rest : By
   rw [h1, this]
 
 end AQ.TlsCodec
+
+namespace AQ.TlsCodec
+open AQ
+
+/-! ### canonicity of `many` / `list`, and of a sequence of two decoders -/
+
+theorem many_canon {α} (d : Dec α) (e : α → Bytes)
+    (hc : ∀ i x t, d i = some (x, t) → i = e x ++ t) :
+    ∀ fuel bs as r, many d fuel bs = some (as, r) → bs = as.flatMap e ∧ r = [] := by
+  intro fuel
+  induction fuel with
+  | zero =>
+    intro bs as r h
+    cases bs with
+    | nil => simp [many] at h; simp [h.1, h.2]
+    | cons b t => simp [many] at h
+  | succ fuel ih =>
+    intro bs as r h
+    cases bs with
+    | nil => simp [many] at h; simp [h.1, h.2]
+    | cons b t =>
+      simp only [many] at h
+      cases hd : d (b :: t) with
+      | none => simp [hd] at h
+      | some p =>
+        rcases p with ⟨a, rest⟩
+        simp only [hd] at h
+        cases hm : many d fuel rest with
+        | none => simp [hm] at h
+        | some q =>
+          rcases q with ⟨as', r'⟩
+          simp only [hm, Option.some.injEq, Prod.mk.injEq] at h
+          rcases ih rest as' r' hm with ⟨h1, h2⟩
+          rw [← h.1, ← h.2, hc _ _ _ hd, h1, h2]; simp
+
+theorem list_canon {α} (n : Nat) (d : Dec α) (e : α → Bytes)
+    (hc : ∀ i x t, d i = some (x, t) → i = e x ++ t) (bs r : Bytes) (as : List α)
+    (h : list n d bs = some (as, r)) : bs = listEnc n e as ++ r := by
+  unfold list at h
+  cases ho : opq n bs with
+  | none => simp [ho] at h
+  | some p =>
+    rcases p with ⟨inner, rest⟩
+    simp only [ho] at h
+    cases hm : many d (inner.length + 1) inner with
+    | none => simp [hm] at h
+    | some q =>
+      rcases q with ⟨as', r'⟩
+      simp only [hm, Option.some.injEq, Prod.mk.injEq] at h
+      rcases many_canon d e hc _ _ _ _ hm with ⟨h1, _⟩
+      rcases opq_canon n bs inner rest ho with ⟨h2, _⟩
+      rw [h2, h1, ← h.1, ← h.2]; rfl
+
+theorem extDec_canon (i t : Bytes) (x : Ext) (h : extDec i = some (x, t)) : i = extEnc x ++ t := by
+  unfold extDec at h
+  cases hu : uintBE 2 i with
+  | none => simp [hu] at h
+  | some p =>
+    rcases p with ⟨a, r1⟩
+    simp only [hu] at h
+    cases ho : opq 2 r1 with
+    | none => simp [ho] at h
+    | some q =>
+      rcases q with ⟨s, r2⟩
+      simp only [ho, Option.some.injEq, Prod.mk.injEq] at h
+      rw [(uintBE_canon 2 i r1 a hu).1, (opq_canon 2 r1 s r2 ho).1, ← h.1, ← h.2]
+      simp [extEnc]
+
+/-- message framing: type byte, 24-bit length, body decoder inside the block -/
+def msgDec {α} (t : UInt8) (d : Dec α) : Dec α
+  | b :: rest => if b = t then block 3 d rest else none
+  | [] => none
+
+theorem msgDec_canon {α} (t : UInt8) (d : Dec α) (e : α → Bytes)
+    (hc : ∀ i x r, d i = some (x, r) → i = e x ++ r) (bs r : Bytes) (a : α)
+    (h : msgDec t d bs = some (a, r)) : bs = t :: opqEnc 3 (e a) ++ r := by
+  cases bs with
+  | nil => simp [msgDec] at h
+  | cons b rest =>
+    simp only [msgDec] at h
+    by_cases hb : b = t
+    · simp only [hb, ↓reduceIte] at h
+      rw [hb, block_canon 3 d e rest r a hc h]; rfl
+    · simp [hb] at h
+
+/-- message-level boundedness: what follows the declared 24-bit length never influences the value -/
+theorem msgDec_bounded {α} (t : UInt8) (d : Dec α) (inner r r' : Bytes) (h : inner.length < 256 ^ 3) :
+    msgDec t d (t :: opqEnc 3 inner ++ r) =
+      (match d inner with
+       | some (a, []) => some (a, r)
+       | _ => none) ∧
+    (msgDec t d (t :: opqEnc 3 inner ++ r)).map (·.1) = (msgDec t d (t :: opqEnc 3 inner ++ r')).map (·.1) := by
+  simp only [List.cons_append, msgDec, ↓reduceIte]
+  exact ⟨block_bounded 3 d inner r h, block_indep 3 d inner r r' h⟩
+
+end AQ.TlsCodec
